@@ -521,6 +521,7 @@ def index_loops(fnode, keep=frozenset()):
 def normalise_function(fnode, known_locals, known_spellings=()):
     keep = frozenset(known_spellings)
     fn = reduce_to_loop(fnode)
+    fn = update_dictcomp_to_loop(fn)
     fn = split_tuple_assigns(fn, keep)
     fn = aug_from_binop(fn, keep)
     fn = index_loops(fn, keep)
@@ -648,5 +649,55 @@ def result_var_to_returns(fnode):
         reads = sum(1 for n in ast.walk(prev) if isinstance(n, ast.Name) and n.id == R and isinstance(n.ctx, ast.Load))
         if reads == 0 and uses == assigned + 1:
             fn.body = body[:-2] + [trial]
+    ast.fix_missing_locations(fn)
+    return fn
+
+
+def continue_to_nested_if(fnode):
+    """inside a loop body:   if c: continue ; REST    ->    if not c: REST      (the `if` has no else and only `continue`)"""
+    fn = copy.deepcopy(fnode)
+    changed = True
+    while changed:
+        changed = False
+        for loop in [n for n in ast.walk(fn) if isinstance(n, (ast.For, ast.While))]:
+            for blk in [loop.body] + [x.body for x in ast.walk(loop) if isinstance(x, ast.If) and x is not loop] + \
+                    [x.orelse for x in ast.walk(loop) if isinstance(x, ast.If)]:
+                for i, s_ in enumerate(blk):
+                    if isinstance(s_, ast.If) and not s_.orelse and len(s_.body) == 1 and isinstance(s_.body[0], ast.Continue) \
+                            and blk is loop.body and blk[i + 1:]:
+                        neg = s_.test.operand if isinstance(s_.test, ast.UnaryOp) and isinstance(s_.test.op, ast.Not) else \
+                            ast.UnaryOp(op=ast.Not(), operand=s_.test)
+                        new_if = ast.copy_location(ast.If(test=neg, body=blk[i + 1:], orelse=[]), s_)
+                        del blk[i:]
+                        blk.append(new_if)
+                        changed = True
+                        break
+                if changed:
+                    break
+            if changed:
+                break
+    ast.fix_missing_locations(fn)
+    return fn
+
+
+def update_dictcomp_to_loop(fnode):
+    """X.update({k: v for t in R [if c]})   ->   for t in R: [if c:] X[k] = v"""
+    fn = copy.deepcopy(fnode)
+    for n in list(ast.walk(fn)):
+        for f in ('body', 'orelse', 'finalbody'):
+            blk = getattr(n, f, None)
+            if not (isinstance(blk, list) and blk and isinstance(blk[0], ast.stmt)):
+                continue
+            for i, s_ in enumerate(blk):
+                if isinstance(s_, ast.Expr) and isinstance(s_.value, ast.Call) and isinstance(s_.value.func, ast.Attribute) and \
+                        s_.value.func.attr == 'update' and len(s_.value.args) == 1 and not s_.value.keywords and \
+                        isinstance(s_.value.args[0], ast.DictComp) and len(s_.value.args[0].generators) == 1:
+                    comp = s_.value.args[0]
+                    g = comp.generators[0]
+                    tgt = ast.Subscript(value=copy.deepcopy(s_.value.func.value), slice=comp.key, ctx=ast.Store())
+                    body = [ast.Assign(targets=[tgt], value=comp.value)]
+                    for c in reversed(g.ifs):
+                        body = [ast.If(test=c, body=body, orelse=[])]
+                    blk[i] = ast.copy_location(ast.For(target=g.target, iter=g.iter, body=body, orelse=[]), s_)
     ast.fix_missing_locations(fn)
     return fn
